@@ -15,7 +15,7 @@ from __future__ import annotations
 
 from dataclasses import dataclass
 from functools import lru_cache
-from typing import TYPE_CHECKING, Optional, Sequence
+from typing import TYPE_CHECKING, Any, Optional, Sequence
 import numbers
 
 import numpy as np
@@ -126,12 +126,9 @@ def _compute_degree_iterative(expr: Expression) -> Optional[int]:
             result_stack.append(1)
             continue
 
-        # Vector expressions - these have known degrees
-        if isinstance(node, LinearCombination):
-            result_stack.append(1)
-            continue
-        if isinstance(node, VectorSum):
-            result_stack.append(1)
+        # Vector expressions - degree of the elements, as in the recursive traversal
+        if isinstance(node, (LinearCombination, VectorSum)):
+            result_stack.append(_vector_elements_degree(node.vector))
             continue
         if isinstance(node, DotProduct):
             result_stack.append(2)
@@ -238,6 +235,22 @@ def _compute_degree_iterative(expr: Expression) -> Optional[int]:
         result_stack.append(None)
 
     return result_stack[-1] if result_stack else None
+
+
+def _vector_elements_degree(vector: Any) -> Optional[int]:
+    """Largest degree among the elements of a vector operand.
+
+    Returns None if any element is non-polynomial.
+    """
+    if hasattr(vector, "_variables"):
+        return 1
+    max_deg = 0
+    for sub_expr in vector._expressions:
+        d = compute_degree(sub_expr)
+        if d is None:
+            return None
+        max_deg = max(max_deg, d)
+    return max_deg
 
 
 @lru_cache(maxsize=1024)
